@@ -240,11 +240,11 @@ def c01_run(gens, tags, mech):
 
 
 PROPS = {
-    "C05": fw([("general", 1500, 40000), ("wide", 12, 300), ("alias", 60, 1500), ("exh:2:677:1", 2000, 1400000), ("exh:3:9497:97", 2000, 200000)], ALL_FW_TAGS,
+    "C05": fw([("general", 1500, 40000), ("wide", 12, 300), ("alias", 60, 1500), ("longhist", 6, 150), ("exh:2:677:1", 2000, 1400000), ("exh:3:9497:97", 2000, 200000)], ALL_FW_TAGS,
               assumptions=["the correspondence samples histories; the bounded-exhaustive family of the property's quantifier (8 machine sets of 1-3 small machines, full event alphabet "
                            "with known/unknown ids, 4 clock patterns incl. backwards, 6^3 scripted draw words around the dyadic thresholds) is enumerated completely at depth 2 in the thorough "
                            "tier and strided at depth 3; quick tier strides both"]),
-    "C01": dict(c01_run([("general", 2500, 60000), ("czcycle", 1500, 40000), ("extsample", 600, 20000), ("wide", 8, 200), ("alias", 50, 1000)], {"res", "len", "L"}, ["LR", "CZ", "SIG", "END", "batch"]),
+    "C01": dict(c01_run([("general", 2500, 60000), ("czcycle", 1500, 40000), ("extsample", 600, 20000), ("wide", 8, 200), ("alias", 50, 1000), ("longhist", 4, 100)], {"res", "len", "L"}, ["LR", "CZ", "SIG", "END", "batch"]),
               assumptions=FW_ASSUMPTIONS + ["u64 packet counters are modelled as unbounded naturals (overflow needs 2^64 reported events)",
                            "machines have the shape of the Rust types (13 transition slots); proved for everything the bincode decoder accepts (C11)"]),
     "C02": fw([("general", 2500, 40000), ("c02frac", 600, 10000), ("wide", 8, 200), ("alias", 60, 1500)], {"A", "RP", "G", "res", "len"}, mech=["aP"],
@@ -252,7 +252,7 @@ PROPS = {
     "C03": fw([("general", 2500, 40000), ("wide", 6, 150), ("alias", 60, 1500)], {"A", "RB", "G", "res", "len"}, mech=["aB"],
               assumptions=["the blocked share is the IEEE double the code computes (as_secs_f64 of both durations, one division); the exact-arithmetic reading holds up to that rounding"]),
     "C07": fw([("c07", 2000, 40000), ("general", 1000, 20000), ("wide", 8, 200), ("alias", 60, 1500)], {"A", "RS", "L", "res", "len"}, mech=["LR", "lim0"]),
-    "C08": fw([("c08", 2000, 40000), ("general", 1000, 20000), ("wide", 8, 200), ("alias", 60, 1500)], {"RC", "RZ", "L", "A", "res", "len"}, mech=["CZ", "ctr"]),
+    "C08": fw([("c08", 2000, 40000), ("general", 1000, 20000), ("wide", 8, 200), ("alias", 60, 1500), ("longhist", 6, 150)], {"RC", "RZ", "L", "A", "res", "len"}, mech=["CZ", "ctr"]),
     "C09": fw([("c09", 2000, 40000), ("general", 1000, 20000), ("wide", 8, 200), ("alias", 40, 1000)], {"GS", "L", "A", "res", "len"}, mech=["SIG", "SGN"]),
     "C10": fw([("ni", 2000, 40000)], {"A", "AT", "res", "len"}, mech=["aP", "aB", "aT", "aC"],
               assumptions=["the probe machine is draw-independent (probability-1 transitions, constant distributions) and neither signals nor is signalled; framework fractions are 0"]),
